@@ -411,6 +411,10 @@ func (s *Lexer) readBlockString() (Token, error) {
 
 	var buf bytes.Buffer
 
+	// the token is positioned at its opening quote, whatever lines it spans
+	startLine := s.line
+	startColumn := s.startRunes - s.lineStartRunes + 1
+
 	// skip the opening quote
 	s.start += 3
 	s.startRunes += 3
@@ -440,6 +444,8 @@ func (s *Lexer) readBlockString() (Token, error) {
 				t, err := s.makeValueToken(BlockString, blockStringValue(buf.String()))
 				t.Pos.Start -= 3
 				t.Pos.End += 3
+				t.Pos.Line = startLine
+				t.Pos.Column = startColumn
 				s.end += quoteCount
 				s.endRunes += quoteCount
 				return t, err
